@@ -98,6 +98,10 @@ PROGRAMS = [
     # tuples with several entity columns of the same declared type
     '((h.ref, h.k, h.ref2) for h in H if h.ref is not None and h.ref2 is not None)', '((h.ref2, h.ref) for h in H if h.ref is not None and h.ref2 is not None)',
     '((h, h.ref2) for h in H if h.ref2 is not None)', '((a, h.ref2) for a in A for h in a.hs if h.ref2 is not None)',
+    # subqueries over a subclass written with the entity's own methods and a lambda (another path to the class condition)
+    '(h for h in H if B.exists(lambda b: b.id == h.k))', '(h for h in H if not D.exists(lambda d: d.id == h.k))', '(h for h in H if h.ref in B.select(lambda b: b.id > 0))',
+    '(h for h in H if count(C.select(lambda c: c.id == h.k)) > 0)', '(h for h in H if B.exists(lambda b: b.x == h.k))', '(a for a in A if B.exists(lambda b: b.id == a.id))',
+    '(a for a in A if a in D.select(lambda d: d.id > x))',
 ]
 
 
